@@ -1,8 +1,9 @@
 /-
-C08, part 4 — liveness on warm paths: a permitted ping between two hosts joined by chains of directly linked routers
-succeeds (`Model/Forward.lean`).  PARTIAL with respect to the property's liveness clause: caches are assumed warm, links
-direct (no switches), hosts single-NIC, the exchange is ICMP.  The cold path (ARP exchanges), switches and the service
-exchange are validated against the implementation by R-net (oracle (d)), not proved.
+C08, part 4 — liveness on warm paths: a permitted ping, and a permitted service request / reply, between two hosts joined
+by paths of any number of switches (tables learned), routers and firewalls (caches warm, every verdict permitting) succeed
+(`Model/Forward.lean`).  PARTIAL with respect to the property's liveness clause: caches and switch tables are assumed warm
+and hosts single-NIC.  The cold path (the ARP exchanges nested in the first ping) is validated against the implementation
+by R-net (oracle (d)) and shown by evaluation on concrete networks below, not proved in general.
 -/
 import PrimaiteModel.Props.C08Addressee
 import PrimaiteModel.Props.C08Forward
@@ -35,29 +36,55 @@ theorem addArp_known (nd : Node) (ip : Ip) (mac : Mac) (i : Nat) (e : ArpEntry) 
 /-- what a warm router needs to pass an ICMP frame `src → dst` arriving on interface `i` for MAC `inMac` on to
 interface `(m, j)` with destination MAC `e.mac`. `viaRoute = true`: off-link, along `find_best_route`; `false`: the
 destination is on-link and cached. -/
-structure Hop (N : List Node) (src dst : Ip) (n i : Nat) (inMac : Mac) (m j : Nat) (outSrc outDst : Mac) : Prop where
-  node : ∃ nd ifc es e oif pif, N[n]? = some nd ∧ nd.kind = .router ∧ nd.on = true ∧ nd.ifaces[i]? = some ifc ∧
+structure Hop (N : List Node) (pl : Pl) (src dst : Ip) (n i : Nat) (inMac : Mac) (m j : Nat) (outSrc outDst : Mac) : Prop where
+  node : ∃ nd ifc es e oif pif, N[n]? = some nd ∧ nd.kind = .router ∧ transitOk nd i pl dst = true ∧ nd.ifaces[i]? = some ifc ∧
     ifc.mac = inMac ∧ nd.arpGet src = some es ∧ ifaceWithIp nd.ifaces dst = none ∧
     ((nd.arpGet dst = none ∧ firstIn nd.ifaces dst 0 = none ∧ (findBestRoute nd.routes dst).nextHop? = some e.ip ∧
         findBestRoute nd.routes dst ≠ .raised ∧ nd.arpGet e.ip = some e ∧ oif.inNet dst = false) ∨
-     (nd.arpGet dst = some e ∧ oif.inNet dst = true)) ∧
+     (nd.arpGet dst = some e ∧ oif.inNet dst = true) ∨
+     -- the destination is remote but cached (learned from an earlier frame it sent through a neighbour)
+     (∃ ed oif0, nd.arpGet dst = some ed ∧ nd.ifaces[ed.ifc]? = some oif0 ∧ oif0.enabled = true ∧ oif0.inNet dst = false ∧
+        (findBestRoute nd.routes dst).nextHop? = some e.ip ∧ findBestRoute nd.routes dst ≠ .raised ∧
+        nd.arpGet e.ip = some e ∧ oif.inNet dst = false)) ∧
     nd.ifaces[e.ifc]? = some oif ∧ oif.enabled = true ∧ oif.peer = some (m, j) ∧
     (N[m]?).bind (·.ifaces[j]?) = some pif ∧ pif.enabled = true ∧ outSrc = oif.mac ∧ outDst = e.mac
 
 
-def isEcho (p : Pl) : Prop := (∃ k, p = .echoReq k) ∨ (∃ k, p = .echoRep k)
+/-- a router that has the (remote) destination in its cache — learned from a frame the destination sent earlier through a
+neighbour — still forwards along the route `find_best_route` returns, to the cached MAC of that route's next hop. -/
+theorem router_forward_cached (fuel : Nat) (st : St) (n i : Nat) (f : Frame) (nd : Node) (ed e : ArpEntry) (oif0 oif : Iface)
+    (hn : st.node? n = some nd) (hb : (f.dstMac == bcastMac) = false)
+    (hed : nd.arpGet f.dstIp = some ed) (hif0 : st.iface? n ed.ifc = some oif0) (hen0 : oif0.enabled = true)
+    (hnot0 : oif0.inNet f.dstIp = false)
+    (hnh : (findBestRoute nd.routes f.dstIp).nextHop? = some e.ip) (hnr : findBestRoute nd.routes f.dstIp ≠ .raised)
+    (he : nd.arpGet e.ip = some e) (hif : st.iface? n e.ifc = some oif) (hen : oif.enabled = true)
+    (httl : ¬ f.dec.ttl < 1) :
+    routerProcess (fuel + 3) st n i f =
+      sendFrame (fuel + 2) (st.emit (.hop n f.id f.ttl)) n e.ifc (f.dec.stamp oif.mac e.mac) := by
+  cases hres : findBestRoute nd.routes f.dstIp with
+  | raised => exact absurd hres hnr
+  | noRoute => rw [hres] at hnh; simp [Route.Result.nextHop?] at hnh
+  | route idx r =>
+    rw [hres] at hnh
+    simp only [Route.Result.nextHop?, Option.some.injEq] at hnh
+    rw [← hnh] at he
+    simp only [routerProcess, hb, Bool.false_eq_true, if_false, arpIfc, arpMac, hn, hed, hif0, hen0, hnot0, hres, he, hif, hen,
+      httl, Route.Result.nextHop?, Bool.not_true]
+  | default nh =>
+    rw [hres] at hnh
+    simp only [Route.Result.nextHop?, Option.some.injEq] at hnh
+    rw [← hnh] at he
+    simp only [routerProcess, hb, Bool.false_eq_true, if_false, arpIfc, arpMac, hn, hed, hif0, hen0, hnot0, hres, he, hif, hen,
+      httl, Route.Result.nextHop?, Bool.not_true]
 
-theorem echo_not_data {p : Pl} (h : isEcho p) (b : Bool) : ((p == .dataReq || p == .dataRep) && b) = false := by
-  rcases h with ⟨k, rfl⟩ | ⟨k, rfl⟩ <;> rfl
-
-theorem hop_step (fuel : Nat) (st : St) (src dst : Ip) (n i : Nat) (inMac : Mac) (m j : Nat) (outSrc outDst : Mac)
-    (h : Hop st.nodes src dst n i inMac m j outSrc outDst) (f : Frame)
-    (hsrc : f.srcIp = src) (hdst : f.dstIp = dst) (hmac : f.dstMac = inMac) (hb : inMac ≠ bcastMac) (hpl : isEcho f.pl)
+theorem hop_step (fuel : Nat) (st : St) (pl : Pl) (src dst : Ip) (n i : Nat) (inMac : Mac) (m j : Nat) (outSrc outDst : Mac)
+    (h : Hop st.nodes pl src dst n i inMac m j outSrc outDst) (f : Frame)
+    (hsrc : f.srcIp = src) (hdst : f.dstIp = dst) (hmac : f.dstMac = inMac) (hb : inMac ≠ bcastMac) (hpl : f.pl = pl)
     (httl : 3 ≤ f.ttl) :
     ifaceRecv (fuel + 5) st n i f =
       ifaceRecv (fuel + 1) ((st.emit (.rx n i f.id f.ttl)).emit (.hop n f.id f.dec.ttl)) m j (f.dec.dec.stamp outSrc outDst) := by
   obtain ⟨nd, ifc, es, e, oif, pif, hn, hk, hon, hi, himac, hes, hown, hcase, hoif, hen, hpeer, hpif, hpen, rfl, rfl⟩ := h.node
-  subst hsrc hdst
+  subst hsrc hdst hpl
   have hn' : st.node? n = some nd := hn
   have hi' : st.iface? n i = some ifc := by unfold St.iface?; rw [hn]; exact hi
   have hoif' : st.iface? n e.ifc = some oif := by unfold St.iface?; rw [hn]; exact hoif
@@ -81,8 +108,7 @@ theorem hop_step (fuel : Nat) (st : St) (src dst : Ip) (n i : Nat) (inMac : Mac)
   have hstep1 : ifaceRecv (fuel + 5) st n i f = routerRecv (fuel + 3 + 1) (st.emit (.rx n i f.id f.ttl)) n i f.dec := by
     simp only [ifaceRecv, hn', hi', h1, if_false, hk, hra, if_true]
   rw [hstep1]
-  rw [C08_router_software_only_own_address (fuel + 3) (st.emit (.rx n i f.id f.ttl)) n i f.dec nd ifc hn' hi' hon
-    (echo_not_data hpl _) hown]
+  rw [C08_router_transit (fuel + 3) (st.emit (.rx n i f.id f.ttl)) n i f.dec nd ifc hn' hi' hon hown]
   rw [hlearn]
   subst hR
   have hsend : ∀ X : St, X.nodes = st.nodes → ∀ g : Frame,
@@ -91,7 +117,7 @@ theorem hop_step (fuel : Nat) (st : St) (src dst : Ip) (n i : Nat) (inMac : Mac)
     have e1 : X.iface? n e.ifc = some oif := by unfold St.iface?; rw [hX]; exact hoif'
     have e2 : X.iface? m j = some pif := by unfold St.iface?; rw [hX]; exact hpif'
     simp only [sendFrame, e1, hen, hpeer, e2, hpen, Bool.not_true, Bool.false_eq_true, if_false]
-  rcases hcase with ⟨hmiss, hoff, hnh, hnr, he, hnot⟩ | ⟨he, hin⟩
+  rcases hcase with ⟨hmiss, hoff, hnh, hnr, he, hnot⟩ | ⟨he, hin⟩ | ⟨ed, oif0, hed, hoif0, hen0, hnot0, hnh, hnr, he, _⟩
   · have hreq : ∀ k (X : St), X.node? n = some nd → sendArpReq (k + 1) X n e.ip = X := by
       intro k X hX; simp only [sendArpReq, hX, he, Option.isSome_some, if_true]
     have hX : (st.emit (.rx n i f.id f.ttl)).node? n = some nd := hn'
@@ -121,48 +147,116 @@ theorem hop_step (fuel : Nat) (st : St) (src dst : Ip) (n i : Nat) (inMac : Mac)
       simp only [h2', if_false]
     rw [this]
     exact hsend ((st.emit (.rx n i f.id f.ttl)).emit (.hop n f.id f.dec.ttl)) rfl _
+  · have hX : (st.emit (.rx n i f.id f.ttl)).node? n = some nd := hn'
+    have hXi : (st.emit (.rx n i f.id f.ttl)).iface? n e.ifc = some oif := hoif'
+    have hXi0 : (st.emit (.rx n i f.id f.ttl)).iface? n ed.ifc = some oif0 := by
+      show st.iface? n ed.ifc = some oif0
+      unfold St.iface?; rw [hn]; exact hoif0
+    rw [router_forward_cached fuel (st.emit (.rx n i f.id f.ttl)) n i f.dec nd ed e oif0 oif hX hbm hed hXi0 hen0 hnot0 hnh hnr he
+      hXi hen h2]
+    exact hsend ((st.emit (.rx n i f.id f.ttl)).emit (.hop n f.id f.dec.ttl)) rfl _
 
 
-/-- a chain of `k` warm router hops from interface `(n, i)` (frames for MAC `inMac`) to interface `(b, bi)`; the frame
-arrives there with source MAC `fs` and destination MAC `fd`. -/
-inductive Chain (N : List Node) (src dst : Ip) : Nat → Nat → Mac → Nat → Nat → Mac → Mac → Nat → Prop
-  | last {n i : Nat} {inMac : Mac} {b bi : Nat} {fs fd : Mac} :
-      Hop N src dst n i inMac b bi fs fd → Chain N src dst n i inMac b bi fs fd 1
-  | step {n i : Nat} {inMac : Mac} {m j : Nat} {os od : Mac} {b bi : Nat} {fs fd : Mac} {k : Nat} :
-      Hop N src dst n i inMac m j os od → od ≠ bcastMac → Chain N src dst m j od b bi fs fd k →
-      Chain N src dst n i inMac b bi fs fd (k + 1)
+/-- a switch that has already learned the frame's source MAC on the ingress port `i` and its destination MAC on a port
+whose link leads to interface `(m, j)`. -/
+structure SwHop (N : List Node) (n i : Nat) (sm dm : Mac) (m j : Nat) : Prop where
+  node : ∃ nd ifc p oif pif, N[n]? = some nd ∧ nd.kind = .switch ∧ nd.ifaces[i]? = some ifc ∧
+    nd.macTable.find? (fun e => e.1 == sm) = some (sm, i) ∧ nd.macPort dm = some p ∧
+    nd.ifaces[p]? = some oif ∧ oif.enabled = true ∧ oif.peer = some (m, j) ∧
+    (N[m]?).bind (·.ifaces[j]?) = some pif ∧ pif.enabled = true
+
+theorem learnMac_known (nd : Node) (mac : Mac) (port : Nat) (h : nd.macTable.find? (fun e => e.1 == mac) = some (mac, port)) :
+    nd.learnMac mac port = nd := by
+  unfold Node.learnMac
+  simp [h]
+
+theorem sw_step (fuel : Nat) (st : St) (n i : Nat) (sm dm : Mac) (m j : Nat)
+    (h : SwHop st.nodes n i sm dm m j) (f : Frame) (hsm : f.srcMac = sm) (hdm : f.dstMac = dm) (hb : dm ≠ bcastMac)
+    (httl : 2 ≤ f.ttl) :
+    ifaceRecv (fuel + 4) st n i f = ifaceRecv (fuel + 1) (st.emit (.rx n i f.id f.ttl)) m j f.dec := by
+  obtain ⟨nd, ifc, p, oif, pif, hn, hk, hi, hsrc, hdst, hoif, hen, hpeer, hpif, hpen⟩ := h.node
+  subst hsm hdm
+  have hn' : st.node? n = some nd := hn
+  have hi' : st.iface? n i = some ifc := by unfold St.iface?; rw [hn]; exact hi
+  have h1 : ¬ f.dec.ttl < 1 := by unfold Frame.dec; simp only; omega
+  have hlearn : (st.emit (.rx n i f.id f.ttl)).modNode n (fun nd => nd.learnMac f.dec.srcMac i) = st.emit (.rx n i f.id f.ttl) := by
+    apply modNode_id
+    intro nd' hnd'
+    have : nd' = nd := by
+      have : (st.emit (.rx n i f.id f.ttl)).node? n = st.node? n := rfl
+      rw [this, hn'] at hnd'; simpa using hnd'.symm
+    subst this
+    exact learnMac_known nd' _ _ hsrc
+  have hX : (st.emit (.rx n i f.id f.ttl)).node? n = some nd := hn'
+  have e1 : (st.emit (.rx n i f.id f.ttl)).iface? n p = some oif := by
+    show st.iface? n p = some oif
+    unfold St.iface?; rw [hn]; exact hoif
+  have e2 : (st.emit (.rx n i f.id f.ttl)).iface? m j = some pif := hpif
+  have hne : (f.dec.dstMac != bcastMac) = true := by simpa [Frame.dec] using hb
+  have hd : nd.macPort f.dec.dstMac = some p := hdst
+  have s1 : ifaceRecv (fuel + 4) st n i f = switchRecv (fuel + 3) (st.emit (.rx n i f.id f.ttl)) n i f.dec := by
+    simp only [ifaceRecv, hn', hi', h1, if_false, hk]
+  have s2 : switchRecv (fuel + 3) (st.emit (.rx n i f.id f.ttl)) n i f.dec =
+      sendFrame (fuel + 2) (st.emit (.rx n i f.id f.ttl)) n p f.dec := by
+    simp only [switchRecv, hlearn, hX, hd, hne, if_true]
+  have s3 : sendFrame (fuel + 2) (st.emit (.rx n i f.id f.ttl)) n p f.dec =
+      ifaceRecv (fuel + 1) (st.emit (.rx n i f.id f.ttl)) m j f.dec := by
+    simp only [sendFrame, e1, hen, hpeer, e2, hpen, Bool.not_true, Bool.false_eq_true, if_false]
+  rw [s1, s2, s3]
+
+/-- a warm path from interface `(n, i)` (a frame with source MAC `sm`, destination MAC `dm` arrives there) to interface
+`(b, bi)` (the frame arrives there with MACs `fs`, `fd`), through any number of switches and routers / firewalls, in any
+order; `c` = nesting depth it costs, `h` = TTL it costs (1 per switch, 2 per router). -/
+inductive Path (N : List Node) (pl : Pl) (src dst : Ip) : Nat → Nat → Mac → Mac → Nat → Nat → Mac → Mac → Nat → Nat → Prop
+  | arrive {b bi : Nat} {fs fd : Mac} : Path N pl src dst b bi fs fd b bi fs fd 0 0
+  | router {n i : Nat} {sm dm : Mac} {m j : Nat} {os od : Mac} {b bi : Nat} {fs fd : Mac} {c h : Nat} :
+      Hop N pl src dst n i dm m j os od → od ≠ bcastMac → Path N pl src dst m j os od b bi fs fd c h →
+      Path N pl src dst n i sm dm b bi fs fd (c + 4) (h + 2)
+  | switch {n i : Nat} {sm dm : Mac} {m j : Nat} {b bi : Nat} {fs fd : Mac} {c h : Nat} :
+      SwHop N n i sm dm m j → Path N pl src dst m j sm dm b bi fs fd c h →
+      Path N pl src dst n i sm dm b bi fs fd (c + 3) (h + 1)
 
 theorem emit2_log (st : St) (a b : Ev) (L : List Ev) :
     ({ (st.emit a).emit b with log := L ++ ((st.emit a).emit b).log } : St) = { st with log := (L ++ [b, a]) ++ st.log } := by
   simp [St.emit]
 
-theorem journey {N : List Node} {src dst : Ip} {n i : Nat} {inMac : Mac} {b bi : Nat} {fs fd : Mac} {k : Nat}
-    (h : Chain N src dst n i inMac b bi fs fd k) :
-    ∀ (fuel : Nat) (st : St) (f : Frame), st.nodes = N → f.srcIp = src → f.dstIp = dst → f.dstMac = inMac →
-      inMac ≠ bcastMac → isEcho f.pl → 2 * (k : Int) + 1 ≤ f.ttl →
+theorem emit1_log (st : St) (a : Ev) (L : List Ev) :
+    ({ (st.emit a) with log := L ++ (st.emit a).log } : St) = { st with log := (L ++ [a]) ++ st.log } := by
+  simp [St.emit]
+
+theorem journey {N : List Node} {pl : Pl} {src dst : Ip} {n i : Nat} {sm dm : Mac} {b bi : Nat} {fs fd : Mac} {c h : Nat}
+    (hp : Path N pl src dst n i sm dm b bi fs fd c h) :
+    ∀ (fuel : Nat) (st : St) (f : Frame), st.nodes = N → f.srcIp = src → f.dstIp = dst → f.srcMac = sm → f.dstMac = dm →
+      dm ≠ bcastMac → f.pl = pl → (h : Int) + 2 ≤ f.ttl →
       ∃ (L : List Ev) (f' : Frame),
-        ifaceRecv (fuel + 4 * k + 1) st n i f = ifaceRecv (fuel + 1) { st with log := L ++ st.log } b bi f' ∧
-        f'.srcIp = src ∧ f'.dstIp = dst ∧ f'.pl = f.pl ∧ f'.srcMac = fs ∧ f'.dstMac = fd ∧
-        f'.ttl = f.ttl - 2 * k ∧ f'.id = f.id := by
-  induction h with
-  | @last n i inMac b bi fs fd hop =>
-    intro fuel st f hN hs hd hm hb hp ht
+        ifaceRecv (fuel + c + 1) st n i f = ifaceRecv (fuel + 1) { st with log := L ++ st.log } b bi f' ∧
+        f'.srcIp = src ∧ f'.dstIp = dst ∧ f'.pl = pl ∧ f'.srcMac = fs ∧ f'.dstMac = fd ∧
+        f'.ttl = f.ttl - h ∧ f'.id = f.id := by
+  induction hp with
+  | @arrive b bi fs fd =>
+    intro fuel st f _ hs hd hsm hdm _ hpl _
+    exact ⟨[], f, by simp, hs, hd, hpl, hsm, hdm, by simp, rfl⟩
+  | @router n i sm dm m j os od b bi fs fd c h hop hod _ ih =>
+    intro fuel st f hN hs hd _ hdm hb hpl ht
     subst hN
-    refine ⟨[.hop n f.id f.dec.ttl, .rx n i f.id f.ttl], f.dec.dec.stamp fs fd, ?_, ?_⟩
-    · have := hop_step fuel st src dst n i inMac b bi fs fd hop f hs hd hm hb hp (by omega)
-      simpa [St.emit] using this
-    · refine ⟨hs, hd, rfl, rfl, rfl, ?_, rfl⟩
-      simp [Frame.stamp, Frame.dec]; omega
-  | @step n i inMac m j os od b bi fs fd k hop hod _ ih =>
-    intro fuel st f hN hs hd hm hb hp ht
-    subst hN
-    have h1 := hop_step (fuel + 4 * k) st src dst n i inMac m j os od hop f hs hd hm hb hp (by omega)
-    obtain ⟨L, f', e1, e2, e3, e4, e5, e6, e7, e8⟩ := ih (fuel) ((st.emit (.rx n i f.id f.ttl)).emit (.hop n f.id f.dec.ttl))
-      (f.dec.dec.stamp os od) rfl hs hd rfl hod hp (by simp [Frame.stamp, Frame.dec]; omega)
+    have h1 := hop_step (fuel + c) st pl src dst n i dm m j os od hop f hs hd hdm hb hpl (by omega)
+    obtain ⟨L, f', e1, e2, e3, e4, e5, e6, e7, e8⟩ := ih fuel ((st.emit (.rx n i f.id f.ttl)).emit (.hop n f.id f.dec.ttl))
+      (f.dec.dec.stamp os od) rfl hs hd rfl rfl hod hpl (by simp [Frame.stamp, Frame.dec]; omega)
     refine ⟨L ++ [.hop n f.id f.dec.ttl, .rx n i f.id f.ttl], f', ?_, e2, e3, e4, e5, e6, ?_, ?_⟩
-    · have hf : fuel + 4 * (k + 1) + 1 = fuel + 4 * k + 5 := by omega
+    · have hf : fuel + (c + 4) + 1 = fuel + c + 5 := by omega
       rw [hf, h1, e1, emit2_log]
     · rw [e7]; simp [Frame.stamp, Frame.dec]; omega
+    · rw [e8]; rfl
+  | @switch n i sm dm m j b bi fs fd c h hop _ ih =>
+    intro fuel st f hN hs hd hsm hdm hb hpl ht
+    subst hN
+    have h1 := sw_step (fuel + c) st n i sm dm m j hop f hsm hdm hb (by omega)
+    obtain ⟨L, f', e1, e2, e3, e4, e5, e6, e7, e8⟩ := ih fuel (st.emit (.rx n i f.id f.ttl)) f.dec rfl hs hd hsm hdm hb hpl
+      (by simp [Frame.dec]; omega)
+    refine ⟨L ++ [.rx n i f.id f.ttl], f', ?_, e2, e3, e4, e5, e6, ?_, ?_⟩
+    · have hf : fuel + (c + 3) + 1 = fuel + c + 4 := by omega
+      rw [hf, h1, e1, emit1_log]
+    · rw [e7]; simp [Frame.dec]; omega
     · rw [e8]; rfl
 
 
@@ -181,27 +275,52 @@ theorem host_end (fuel : Nat) (st : St) (b : Nat) (nd : Node) (ifc : Iface) (f :
     simp [Frame.dec, hm, hd, ifaceWithIp, hifs, hnb]
   simp only [ifaceRecv, hn, hi, h1, if_false, hk, hacc, if_true]
 
-theorem host_resolveOut_warm (fuel : Nat) (st : St) (n : Nat) (nd : Node) (ifc : Iface) (dst g : Ip) (e : ArpEntry)
-    (hn : st.node? n = some nd) (hk : nd.kind = .host) (hifs : nd.ifaces = [ifc]) (hen : ifc.enabled = true)
-    (hoff : ifc.inNet dst = false) (hg : nd.gateway = some g) (he : nd.arpGet g = some e) :
-    resolveOut (fuel + 2) st n dst = (st, some e.ifc) := by
-  simp [resolveOut, hn, hifs, firstEnabledIn, hoff, hk, hg, hen, arpIfc, he]
+/-- how a single-NIC host reaches `peerIp` with a warm cache: directly (on-link, the peer's own entry) or through its
+on-link default gateway (off-link, the gateway's entry). `e` is the cache entry used. -/
+def HostRoute (nd : Node) (ifc : Iface) (peerIp : Ip) (e : ArpEntry) : Prop :=
+  (ifc.inNet peerIp = true ∧ nd.arpGet peerIp = some e) ∨
+  (ifc.inNet peerIp = false ∧ ∃ g, nd.gateway = some g ∧ ifc.inNet g = true ∧ nd.arpGet g = some e)
 
-theorem host_send_warm (fuel : Nat) (st : St) (n : Nat) (nd : Node) (ifc pif : Iface) (dst g : Ip) (e : ArpEntry) (pl : Pl)
+theorem host_resolveOut_warm (fuel : Nat) (st : St) (n : Nat) (nd : Node) (ifc : Iface) (dst : Ip) (e : ArpEntry)
+    (hn : st.node? n = some nd) (hk : nd.kind = .host) (hifs : nd.ifaces = [ifc]) (hen : ifc.enabled = true)
+    (hr : HostRoute nd ifc dst e) :
+    ∃ k, resolveOut (fuel + 2) st n dst = (st, some k) := by
+  rcases hr with ⟨hin, _⟩ | ⟨hoff, g, hg, hgin, he⟩
+  · exact ⟨0, by simp [resolveOut, hn, hifs, firstEnabledIn, hin, hen]⟩
+  · have hne : (dst == g) = false := by
+      apply beq_false_of_ne
+      intro h; rw [h, hgin] at hoff; cases hoff
+    exact ⟨e.ifc, by simp [resolveOut, hn, hifs, firstEnabledIn, hoff, hk, hg, hen, arpIfc, he, hne]⟩
+
+theorem host_send_warm (fuel : Nat) (st : St) (n : Nat) (nd : Node) (ifc pif : Iface) (dst : Ip) (e : ArpEntry) (pl : Pl)
     (m j : Nat)
     (hn : st.node? n = some nd) (hk : nd.kind = .host) (hifs : nd.ifaces = [ifc]) (hen : ifc.enabled = true)
-    (hoff : ifc.inNet dst = false) (hg : nd.gateway = some g) (he : nd.arpGet g = some e) (he0 : e.ifc = 0)
+    (hr : HostRoute nd ifc dst e) (he0 : e.ifc = 0)
     (hpeer : ifc.peer = some (m, j)) (hpif : st.iface? m j = some pif) (hpen : pif.enabled = true) :
     sendIcmp (fuel + 3) st n dst pl =
       (ifaceRecv (fuel + 1) { st with nextId := st.nextId + 1 } m j (mkFrame st ifc e.mac dst pl)).1 := by
   have hi : st.iface? n e.ifc = some ifc := by
     unfold St.iface?; unfold St.node? at hn; rw [hn, he0]; simp [hifs]
-  rw [C08_host_next_hop_gateway fuel st n nd dst g pl e hn hk (by simp [hifs, firstEnabledIn, hoff]) hg he
-    (by simp [hifs, hen])]
-  simp only [hi]
   have e1 : ({ st with nextId := st.nextId + 1 } : St).iface? n e.ifc = some ifc := hi
   have e2 : ({ st with nextId := st.nextId + 1 } : St).iface? m j = some pif := hpif
-  simp only [sendFrame, e1, hen, hpeer, e2, hpen, Bool.not_true, Bool.false_eq_true, if_false]
+  rcases hr with ⟨hin, he⟩ | ⟨hoff, g, hg, _, he⟩
+  · rw [C08_host_next_hop_direct fuel st n 0 nd dst pl e hn hk (by simp [hifs, firstEnabledIn, hin, hen]) he]
+    simp only [hi]
+    simp only [sendFrame, e1, hen, hpeer, e2, hpen, Bool.not_true, Bool.false_eq_true, if_false]
+  · rw [C08_host_next_hop_gateway fuel st n nd dst g pl e hn hk (by simp [hifs, firstEnabledIn, hoff]) hg he
+      (by simp [hifs, hen])]
+    simp only [hi]
+    simp only [sendFrame, e1, hen, hpeer, e2, hpen, Bool.not_true, Bool.false_eq_true, if_false]
+
+theorem host_learn_known (st : St) (b : Nat) (nd : Node) (ip : Ip) (mac : Mac) (es : ArpEntry)
+    (hn : st.node? b = some nd) (hes : nd.arpGet ip = some es) :
+    st.modNode b (fun nd => nd.addArp ip mac 0) = st := by
+  apply modNode_id
+  intro nd' hnd'
+  rw [hn] at hnd'
+  have : nd' = nd := by simpa using hnd'.symm
+  subst this
+  exact addArp_known nd' _ _ _ es hes
 
 theorem host_echo_req (fuel : Nat) (st : St) (b : Nat) (nd : Node) (ifc : Iface) (f : Frame) (ident : Nat) (es : ArpEntry)
     (hn : st.node? b = some nd) (hon : nd.on = true) (hifs : nd.ifaces = [ifc]) (hpl : f.pl = .echoReq ident)
@@ -213,14 +332,8 @@ theorem host_echo_req (fuel : Nat) (st : St) (b : Nat) (nd : Node) (ifc : Iface)
                       (.echoRep ident), f)) := by
   have hi : st.iface? b 0 = some ifc := by
     unfold St.iface?; unfold St.node? at hn; rw [hn]; simp [hifs]
-  have hlearn : st.modNode b (fun nd => nd.addArp f.srcIp f.srcMac 0) = st := by
-    apply modNode_id
-    intro nd' hnd'
-    rw [hn] at hnd'
-    have : nd' = nd := by simpa using hnd'.symm
-    subst this
-    exact addArp_known nd' _ _ _ es hes
-  simp only [hostRecv, hn, hi, hon, if_true, hlearn, hpl, hd, bne_self_eq_false, Bool.false_eq_true, if_false]
+  simp only [hostRecv, hn, hi, hon, if_true, host_learn_known st b nd f.srcIp f.srcMac es hn hes, hpl, hd, bne_self_eq_false,
+    Bool.false_eq_true, if_false]
   rfl
 
 theorem host_echo_rep (fuel : Nat) (st : St) (a : Nat) (nd : Node) (ifc : Iface) (f : Frame) (ident : Nat) (es : ArpEntry)
@@ -231,15 +344,28 @@ theorem host_echo_rep (fuel : Nat) (st : St) (a : Nat) (nd : Node) (ifc : Iface)
         (fun nd => { nd with replies := bumpReply nd.replies ident }), f) := by
   have hi : st.iface? a 0 = some ifc := by
     unfold St.iface?; unfold St.node? at hn; rw [hn]; simp [hifs]
-  have hlearn : st.modNode a (fun nd => nd.addArp f.srcIp f.srcMac 0) = st := by
-    apply modNode_id
-    intro nd' hnd'
-    rw [hn] at hnd'
-    have : nd' = nd := by simpa using hnd'.symm
-    subst this
-    exact addArp_known nd' _ _ _ es hes
-  simp only [hostRecv, hn, hi, hon, if_true, hlearn, hpl]
+  simp only [hostRecv, hn, hi, hon, if_true, host_learn_known st a nd f.srcIp f.srcMac es hn hes, hpl]
 
+/-- the server side of the service (`NTPServer.receive`): answer to the frame's source address. -/
+theorem host_data_req (fuel : Nat) (st : St) (b : Nat) (nd : Node) (ifc : Iface) (f : Frame) (es : ArpEntry)
+    (hn : st.node? b = some nd) (hon : nd.on = true) (hflag : nd.flag = true) (hifs : nd.ifaces = [ifc]) (hpl : f.pl = .dataReq)
+    (hes : nd.arpGet f.srcIp = some es) :
+    hostRecv (fuel + 1) st b 0 f =
+      (sendIcmp fuel (st.emit (.sw b f.id f.dstIp (f.dstMac == bcastMac))) b f.srcIp .dataRep, f) := by
+  have hi : st.iface? b 0 = some ifc := by
+    unfold St.iface?; unfold St.node? at hn; rw [hn]; simp [hifs]
+  simp only [hostRecv, hn, hi, hon, if_true, host_learn_known st b nd f.srcIp f.srcMac es hn hes, hpl, hflag]
+
+/-- the client side (`NTPClient.receive`): the reply is recorded. -/
+theorem host_data_rep (fuel : Nat) (st : St) (a : Nat) (nd : Node) (ifc : Iface) (f : Frame) (es : ArpEntry)
+    (hn : st.node? a = some nd) (hon : nd.on = true) (hflag : nd.flag = false) (hifs : nd.ifaces = [ifc]) (hpl : f.pl = .dataRep)
+    (hes : nd.arpGet f.srcIp = some es) :
+    hostRecv (fuel + 1) st a 0 f =
+      ((st.emit (.sw a f.id f.dstIp (f.dstMac == bcastMac))).modNode a (fun nd => { nd with served := true }), f) := by
+  have hi : st.iface? a 0 = some ifc := by
+    unfold St.iface?; unfold St.node? at hn; rw [hn]; simp [hifs]
+  simp only [hostRecv, hn, hi, hon, if_true, host_learn_known st a nd f.srcIp f.srcMac es hn hes, hpl, hflag,
+    Bool.false_eq_true, if_false]
 
 theorem replyCount_bump (l : List (Nat × Nat)) (ident : Nat) (h : replyCount l ident = none) :
     replyCount (bumpReply l ident) ident = some 1 := by
@@ -251,15 +377,16 @@ theorem replyCount_bump (l : List (Nat × Nat)) (ident : Nat) (h : replyCount l 
     simp only [List.find?_append, hf, Option.none_or]
     simp
 
-/-- what a single-NIC host needs for a warm exchange with the off-link address `peerIp` through its gateway. -/
+/-- what a powered-on single-NIC host needs for a warm exchange with the address `peerIp`: an enabled NIC whose link
+leads to the enabled interface `(r, i)`, a warm route to the peer (`HostRoute`, direct or through the on-link gateway), and
+the peer's address in the cache (so that receiving its frames teaches nothing new). -/
 structure WarmHost (N : List Node) (n : Nat) (nd : Node) (ifc : Iface) (peerIp : Ip) (e : ArpEntry) (r i : Nat) : Prop where
   node : N[n]? = some nd
   kind : nd.kind = .host
   on : nd.on = true
   ifs : nd.ifaces = [ifc]
   enabled : ifc.enabled = true
-  offlink : ifc.inNet peerIp = false
-  gw : ∃ g, nd.gateway = some g ∧ nd.arpGet g = some e
+  route : HostRoute nd ifc peerIp e
   e0 : e.ifc = 0
   peer : ifc.peer = some (r, i)
   peerUp : ∃ p, (N[r]?).bind (·.ifaces[i]?) = some p ∧ p.enabled = true
@@ -267,20 +394,19 @@ structure WarmHost (N : List Node) (n : Nat) (nd : Node) (ifc : Iface) (peerIp :
   macOk : ifc.mac ≠ bcastMac
   gwMacOk : e.mac ≠ bcastMac
 
-/-- LIVENESS, warm caches: two powered-on single-NIC hosts, each with a resolved default gateway, joined by chains of
-`k1` (forward) and `k2` (backward) directly linked routers whose caches are warm and whose routes (static or default,
-selected by `find_best_route`) lead along the chain; every device permits ICMP (default router ACL). Then one `ping`
-returns `True`: the request reaches B's software, B answers, the reply reaches A's software and is counted. -/
+/-- LIVENESS, warm caches, ICMP: two powered-on single-NIC hosts, each with a warm route to the other (direct, or through
+its resolved on-link default gateway), joined by warm paths — any number of switches that have learned both MAC addresses
+and of routers / firewalls whose caches are warm, whose routes (static or default, selected by `find_best_route`) lead
+along the path and whose every verdict permits ICMP (`transitOk`), in any order; at most 62 TTL units each way.  Then one
+`ping` returns `True`: the request reaches B's software, B answers, the reply reaches A's software and is counted. -/
 theorem C08_permitted_exchange_succeeds_warm (st : St) (a b : Nat) (ndA ndB : Node) (ifA ifB : Iface) (eA eB : ArpEntry)
-    (r1 i1 r2 i2 : Nat) (fsA fsB : Mac) (k1 k2 fuel : Nat)
+    (r1 i1 r2 i2 : Nat) (fsA fsB : Mac) (c1 h1 c2 h2 fuel : Nat)
     (hA : WarmHost st.nodes a ndA ifA ifB.ip eA r1 i1) (hB : WarmHost st.nodes b ndB ifB ifA.ip eB r2 i2)
     (hrep : replyCount ndA.replies st.nextId = none)
-    (cAB : Chain st.nodes ifA.ip ifB.ip r1 i1 eA.mac b 0 fsB ifB.mac k1)
-    (cBA : Chain st.nodes ifB.ip ifA.ip r2 i2 eB.mac a 0 fsA ifA.mac k2)
-    (hk1 : k1 ≤ 30) (hk2 : k2 ≤ 30) :
-    (ping (fuel + 4 * (k1 + k2) + 8) st a ifB.ip 1).2 = true := by
-  obtain ⟨gA, hAg, hAe⟩ := hA.gw
-  obtain ⟨gB, hBg, hBe⟩ := hB.gw
+    (pAB : Path st.nodes (.echoReq st.nextId) ifA.ip ifB.ip r1 i1 ifA.mac eA.mac b 0 fsB ifB.mac c1 h1)
+    (pBA : Path st.nodes (.echoRep st.nextId) ifB.ip ifA.ip r2 i2 ifB.mac eB.mac a 0 fsA ifA.mac c2 h2)
+    (hh1 : h1 ≤ 62) (hh2 : h2 ≤ 62) :
+    (ping (fuel + c1 + c2 + 8) st a ifB.ip 1).2 = true := by
   obtain ⟨pA, hpA, hpAen⟩ := hA.peerUp
   obtain ⟨pB, hpB, hpBen⟩ := hB.peerUp
   obtain ⟨esA, hesA⟩ := hA.knowsPeer
@@ -293,42 +419,41 @@ theorem C08_permitted_exchange_succeeds_warm (st : St) (a b : Nat) (ndA ndB : No
   -- 1. A sends the request
   let st1 : St := { st with nextId := st.nextId + 1 }
   let ident := st.nextId
-  have s1 : sendIcmp (fuel + 4 * (k1 + k2) + 8) st1 a ifB.ip (.echoReq ident) =
-      (ifaceRecv (fuel + 4 * (k1 + k2) + 5 + 1) { st1 with nextId := st1.nextId + 1 } r1 i1
+  have s1 : sendIcmp (fuel + c1 + c2 + 8) st1 a ifB.ip (.echoReq ident) =
+      (ifaceRecv (fuel + c1 + c2 + 5 + 1) { st1 with nextId := st1.nextId + 1 } r1 i1
         (mkFrame st1 ifA eA.mac ifB.ip (.echoReq ident))).1 :=
-    host_send_warm (fuel + 4 * (k1 + k2) + 5) st1 a ndA ifA pA ifB.ip gA eA (.echoReq ident) r1 i1 (nodeA st1 rfl) hA.kind
-      hA.ifs hA.enabled hA.offlink hAg hAe hA.e0 hA.peer (ifP1 st1 rfl) hpAen
-  -- 2. the request travels the forward chain
-  obtain ⟨L1, f1, j1, f1s, f1d, f1p, _, f1m, f1t, _⟩ := journey cAB (fuel + 4 * k2 + 5)
-    { st1 with nextId := st1.nextId + 1 } (mkFrame st1 ifA eA.mac ifB.ip (.echoReq ident)) rfl rfl rfl rfl hA.gwMacOk
-    (Or.inl ⟨ident, rfl⟩) (by simp [mkFrame, initTtl]; omega)
-  have hf1 : fuel + 4 * (k1 + k2) + 5 + 1 = fuel + 4 * k2 + 5 + 4 * k1 + 1 := by omega
+    host_send_warm (fuel + c1 + c2 + 5) st1 a ndA ifA pA ifB.ip eA (.echoReq ident) r1 i1 (nodeA st1 rfl) hA.kind
+      hA.ifs hA.enabled hA.route hA.e0 hA.peer (ifP1 st1 rfl) hpAen
+  -- 2. the request travels the forward path
+  obtain ⟨L1, f1, j1, f1s, f1d, f1p, _, f1m, f1t, _⟩ := journey pAB (fuel + c2 + 5)
+    { st1 with nextId := st1.nextId + 1 } (mkFrame st1 ifA eA.mac ifB.ip (.echoReq ident)) rfl rfl rfl rfl rfl hA.gwMacOk
+    rfl (by simp [mkFrame, initTtl]; omega)
+  have hf1 : fuel + c1 + c2 + 5 + 1 = fuel + c2 + 5 + c1 + 1 := by omega
   rw [hf1, j1] at s1
   -- 3. B's NIC accepts it and hands it to software
   generalize hst3 : ({ ({ st1 with nextId := st1.nextId + 1 } : St) with
     log := L1 ++ ({ st1 with nextId := st1.nextId + 1 } : St).log } : St) = st3 at s1
   have n3 : st3.nodes = st.nodes := by rw [← hst3]
   have f1ttl : 2 ≤ f1.ttl := by rw [f1t]; simp [mkFrame, initTtl]; omega
-  rw [host_end (fuel + 4 * k2 + 5) st3 b ndB ifB f1 (nodeB st3 n3) hB.kind hB.ifs f1m hB.macOk f1d f1ttl] at s1
+  rw [host_end (fuel + c2 + 5) st3 b ndB ifB f1 (nodeB st3 n3) hB.kind hB.ifs f1m hB.macOk f1d f1ttl] at s1
   -- 4. B's ICMP answers
   have hf1dec : f1.dec.srcIp = ifA.ip ∧ f1.dec.dstIp = ifB.ip ∧ f1.dec.pl = .echoReq ident := ⟨f1s, f1d, f1p⟩
-  rw [host_echo_req (fuel + 4 * k2 + 4) (st3.emit (.rx b 0 f1.id f1.ttl)) b ndB ifB f1.dec ident esB
+  rw [host_echo_req (fuel + c2 + 4) (st3.emit (.rx b 0 f1.id f1.ttl)) b ndB ifB f1.dec ident esB
     (nodeB _ n3) hB.on hB.ifs hf1dec.2.2 hf1dec.2.1 (by rw [hf1dec.1]; exact hesB)] at s1
   generalize hst4 : (st3.emit (.rx b 0 f1.id f1.ttl)).emit (.sw b f1.dec.id f1.dec.dstIp (f1.dec.dstMac == bcastMac)) = st4 at s1
   have n4 : st4.nodes = st.nodes := by rw [← hst4]; exact n3
-  have hro : resolveOut (fuel + 4 * k2 + 4) st4 b f1.dec.srcIp = (st4, some eB.ifc) := by
+  obtain ⟨kB, hro⟩ : ∃ k, resolveOut (fuel + c2 + 4) st4 b f1.dec.srcIp = (st4, some k) := by
     rw [hf1dec.1]
-    exact host_resolveOut_warm (fuel + 4 * k2 + 2) st4 b ndB ifB ifA.ip gB eB (nodeB st4 n4) hB.kind hB.ifs hB.enabled
-      hB.offlink hBg hBe
+    exact host_resolveOut_warm (fuel + c2 + 2) st4 b ndB ifB ifA.ip eB (nodeB st4 n4) hB.kind hB.ifs hB.enabled hB.route
   simp only [hro] at s1
   rw [hf1dec.1] at s1
-  rw [host_send_warm (fuel + 4 * k2 + 1) st4 b ndB ifB pB ifA.ip gB eB (.echoRep ident) r2 i2 (nodeB st4 n4) hB.kind hB.ifs
-    hB.enabled hB.offlink hBg hBe hB.e0 hB.peer (ifP2 st4 n4) hpBen] at s1
-  -- 5. the reply travels the backward chain
-  obtain ⟨L2, g1, j2, g1s, _, g1p, _, g1m, g1t, _⟩ := journey cBA (fuel + 1)
-    { st4 with nextId := st4.nextId + 1 } (mkFrame st4 ifB eB.mac ifA.ip (.echoRep ident)) n4 rfl rfl rfl hB.gwMacOk
-    (Or.inr ⟨ident, rfl⟩) (by simp [mkFrame, initTtl]; omega)
-  have hf2 : fuel + 4 * k2 + 1 + 1 = fuel + 1 + 4 * k2 + 1 := by omega
+  rw [host_send_warm (fuel + c2 + 1) st4 b ndB ifB pB ifA.ip eB (.echoRep ident) r2 i2 (nodeB st4 n4) hB.kind hB.ifs
+    hB.enabled hB.route hB.e0 hB.peer (ifP2 st4 n4) hpBen] at s1
+  -- 5. the reply travels the backward path
+  obtain ⟨L2, g1, j2, g1s, _, g1p, _, g1m, g1t, _⟩ := journey pBA (fuel + 1)
+    { st4 with nextId := st4.nextId + 1 } (mkFrame st4 ifB eB.mac ifA.ip (.echoRep ident)) n4 rfl rfl rfl rfl hB.gwMacOk
+    rfl (by simp [mkFrame, initTtl]; omega)
+  have hf2 : fuel + c2 + 1 + 1 = fuel + 1 + c2 + 1 := by omega
   rw [hf2, j2] at s1
   generalize hst6 : ({ ({ st4 with nextId := st4.nextId + 1 } : St) with
     log := L2 ++ ({ st4 with nextId := st4.nextId + 1 } : St).log } : St) = st6 at s1
@@ -340,9 +465,8 @@ theorem C08_permitted_exchange_succeeds_warm (st : St) (a b : Nat) (ndA ndB : No
   rw [host_echo_rep fuel (st6.emit (.rx a 0 g1.id g1.ttl)) a ndA ifA g1.dec ident esA (nodeA _ n6) hA.on hA.ifs g1p
     (by rw [show g1.dec.srcIp = g1.srcIp from rfl, g1s]; exact hesA)] at s1
   -- 7. `ping` reads the counter
-  have hro1 : resolveOut (fuel + 4 * (k1 + k2) + 8) st1 a ifB.ip = (st1, some eA.ifc) :=
-    host_resolveOut_warm (fuel + 4 * (k1 + k2) + 6) st1 a ndA ifA ifB.ip gA eA (nodeA st1 rfl) hA.kind hA.ifs hA.enabled
-      hA.offlink hAg hAe
+  obtain ⟨kA, hro1⟩ : ∃ k, resolveOut (fuel + c1 + c2 + 8) st1 a ifB.ip = (st1, some k) :=
+    host_resolveOut_warm (fuel + c1 + c2 + 6) st1 a ndA ifA ifB.ip eA (nodeA st1 rfl) hA.kind hA.ifs hA.enabled hA.route
   unfold ping
   simp only [st1, ident] at hro1 s1
   simp only [nodeA st rfl, hA.on, Bool.not_true, Bool.false_eq_true, if_false, List.range_one, List.foldl_cons, List.foldl_nil,
@@ -351,42 +475,182 @@ theorem C08_permitted_exchange_succeeds_warm (st : St) (a b : Nat) (ndA ndB : No
   rw [replyCount_bump ndA.replies st.nextId hrep]
   rfl
 
+/-- LIVENESS, warm caches, the service request / reply exchange (`NTPClient.request_time` → `NTPServer` → reply): client A
+(no reply recorded yet), server B (the service installed), the same kind of warm paths, every router on them carrying a
+permit rule for the service and every firewall list on them permitting it (`transitOk` for the service class).  Then the
+request reaches B's software, B answers to the request's source address, and the reply is recorded at A: the call
+returns `True`. -/
+theorem C08_permitted_service_exchange_succeeds_warm (st : St) (a b : Nat) (ndA ndB : Node) (ifA ifB : Iface) (eA eB : ArpEntry)
+    (r1 i1 r2 i2 : Nat) (fsA fsB : Mac) (c1 h1 c2 h2 fuel : Nat)
+    (hA : WarmHost st.nodes a ndA ifA ifB.ip eA r1 i1) (hB : WarmHost st.nodes b ndB ifB ifA.ip eB r2 i2)
+    (hclient : ndA.flag = false) (hserved : ndA.served = false) (hserver : ndB.flag = true)
+    (pAB : Path st.nodes .dataReq ifA.ip ifB.ip r1 i1 ifA.mac eA.mac b 0 fsB ifB.mac c1 h1)
+    (pBA : Path st.nodes .dataRep ifB.ip ifA.ip r2 i2 ifB.mac eB.mac a 0 fsA ifA.mac c2 h2)
+    (hh1 : h1 ≤ 62) (hh2 : h2 ≤ 62) :
+    (requestService (fuel + c1 + c2 + 8) st a ifB.ip).2 = true := by
+  obtain ⟨pA, hpA, hpAen⟩ := hA.peerUp
+  obtain ⟨pB, hpB, hpBen⟩ := hB.peerUp
+  obtain ⟨esA, hesA⟩ := hA.knowsPeer
+  obtain ⟨esB, hesB⟩ := hB.knowsPeer
+  have nodeA : ∀ X : St, X.nodes = st.nodes → X.node? a = some ndA := fun X hX => by unfold St.node?; rw [hX]; exact hA.node
+  have nodeB : ∀ X : St, X.nodes = st.nodes → X.node? b = some ndB := fun X hX => by unfold St.node?; rw [hX]; exact hB.node
+  have ifP1 : ∀ X : St, X.nodes = st.nodes → X.iface? r1 i1 = some pA := fun X hX => by unfold St.iface?; rw [hX]; exact hpA
+  have ifP2 : ∀ X : St, X.nodes = st.nodes → X.iface? r2 i2 = some pB := fun X hX => by unfold St.iface?; rw [hX]; exact hpB
+  -- 0. clearing the (already clear) reply marker changes nothing
+  have h0 : st.modNode a (fun nd => { nd with served := false }) = st := by
+    apply modNode_id
+    intro nd' hnd'
+    rw [nodeA st rfl] at hnd'
+    have : nd' = ndA := by simpa using hnd'.symm
+    subst this
+    cases nd'; simp_all
+  -- 1. A sends the request
+  have s1 : sendIcmp (fuel + c1 + c2 + 8) st a ifB.ip .dataReq =
+      (ifaceRecv (fuel + c1 + c2 + 5 + 1) { st with nextId := st.nextId + 1 } r1 i1 (mkFrame st ifA eA.mac ifB.ip .dataReq)).1 :=
+    host_send_warm (fuel + c1 + c2 + 5) st a ndA ifA pA ifB.ip eA .dataReq r1 i1 (nodeA st rfl) hA.kind
+      hA.ifs hA.enabled hA.route hA.e0 hA.peer (ifP1 st rfl) hpAen
+  -- 2. the request travels the forward path
+  obtain ⟨L1, f1, j1, f1s, f1d, f1p, _, f1m, f1t, _⟩ := journey pAB (fuel + c2 + 5)
+    { st with nextId := st.nextId + 1 } (mkFrame st ifA eA.mac ifB.ip .dataReq) rfl rfl rfl rfl rfl hA.gwMacOk
+    rfl (by simp [mkFrame, initTtl]; omega)
+  have hf1 : fuel + c1 + c2 + 5 + 1 = fuel + c2 + 5 + c1 + 1 := by omega
+  rw [hf1, j1] at s1
+  -- 3. B's NIC accepts it and hands it to software
+  generalize hst3 : ({ ({ st with nextId := st.nextId + 1 } : St) with
+    log := L1 ++ ({ st with nextId := st.nextId + 1 } : St).log } : St) = st3 at s1
+  have n3 : st3.nodes = st.nodes := by rw [← hst3]
+  have f1ttl : 2 ≤ f1.ttl := by rw [f1t]; simp [mkFrame, initTtl]; omega
+  rw [host_end (fuel + c2 + 5) st3 b ndB ifB f1 (nodeB st3 n3) hB.kind hB.ifs f1m hB.macOk f1d f1ttl] at s1
+  -- 4. B's server answers to the source address
+  have hf1dec : f1.dec.srcIp = ifA.ip ∧ f1.dec.pl = .dataReq := ⟨f1s, f1p⟩
+  rw [host_data_req (fuel + c2 + 4) (st3.emit (.rx b 0 f1.id f1.ttl)) b ndB ifB f1.dec esB
+    (nodeB _ n3) hB.on hserver hB.ifs hf1dec.2 (by rw [hf1dec.1]; exact hesB)] at s1
+  generalize hst4 : (st3.emit (.rx b 0 f1.id f1.ttl)).emit (.sw b f1.dec.id f1.dec.dstIp (f1.dec.dstMac == bcastMac)) = st4 at s1
+  have n4 : st4.nodes = st.nodes := by rw [← hst4]; exact n3
+  rw [hf1dec.1] at s1
+  rw [host_send_warm (fuel + c2 + 1) st4 b ndB ifB pB ifA.ip eB .dataRep r2 i2 (nodeB st4 n4) hB.kind hB.ifs
+    hB.enabled hB.route hB.e0 hB.peer (ifP2 st4 n4) hpBen] at s1
+  -- 5. the reply travels the backward path
+  obtain ⟨L2, g1, j2, g1s, _, g1p, _, g1m, g1t, _⟩ := journey pBA (fuel + 1)
+    { st4 with nextId := st4.nextId + 1 } (mkFrame st4 ifB eB.mac ifA.ip .dataRep) n4 rfl rfl rfl rfl hB.gwMacOk
+    rfl (by simp [mkFrame, initTtl]; omega)
+  have hf2 : fuel + c2 + 1 + 1 = fuel + 1 + c2 + 1 := by omega
+  rw [hf2, j2] at s1
+  generalize hst6 : ({ ({ st4 with nextId := st4.nextId + 1 } : St) with
+    log := L2 ++ ({ st4 with nextId := st4.nextId + 1 } : St).log } : St) = st6 at s1
+  have n6 : st6.nodes = st.nodes := by rw [← hst6]; exact n4
+  have g1ttl : 2 ≤ g1.ttl := by rw [g1t]; simp [mkFrame, initTtl]; omega
+  have g1d : g1.dstIp = ifA.ip := by assumption
+  rw [host_end (fuel + 1) st6 a ndA ifA g1 (nodeA st6 n6) hA.kind hA.ifs g1m hA.macOk g1d g1ttl] at s1
+  -- 6. A's client records the reply
+  rw [host_data_rep fuel (st6.emit (.rx a 0 g1.id g1.ttl)) a ndA ifA g1.dec esA (nodeA _ n6) hA.on hclient hA.ifs g1p
+    (by rw [show g1.dec.srcIp = g1.srcIp from rfl, g1s]; exact hesA)] at s1
+  -- 7. `request_time` reads the marker
+  unfold requestService
+  simp only [h0, nodeA st rfl, hA.on, Option.any_some, Bool.not_true, Bool.false_eq_true, if_false, s1]
+  simp only [node?_modNode, if_true, node?_emit, nodeA st6 n6, Option.map_some]
 
-/-! ### non-vacuity: host A — router — host B with warm caches -/
+/-! ### non-vacuity: host A — switch — firewall (internal → external) — router — host B, fully warm (the state after one
+round trip: every router also holds the REMOTE hosts' addresses, learned from the frames that passed) -/
 
-def wA : Node :=
+def lvA : Ip := 0xC0A80102#32   -- 192.168.1.2
+def lvB : Ip := 0xC0A80202#32   -- 192.168.2.2
+def everyList : List (Nat × Nat) := (List.range 6).flatMap (fun l => (List.range 3).map (fun c => (l, c)))
+
+def lvHostA : Node :=
   { kind := .host, gateway := some 0xC0A80101#32,
-    ifaces := [{ mac := 1, ip := 0xC0A80102#32, plen := 24, enabled := true, peer := some (1, 0) }],
-    arp := [{ ip := 0xC0A80101#32, mac := 2, ifc := 0 }, { ip := 0xC0A80202#32, mac := 2, ifc := 0 }] }
-def wR : Node :=
-  { kind := .router,
-    ifaces := [{ mac := 2, ip := 0xC0A80101#32, plen := 24, enabled := true, peer := some (0, 0) },
-               { mac := 3, ip := 0xC0A80201#32, plen := 24, enabled := true, peer := some (2, 0) }],
-    arp := [{ ip := 0xC0A80102#32, mac := 1, ifc := 0 }, { ip := 0xC0A80202#32, mac := 4, ifc := 1 }] }
-def wB : Node :=
-  { kind := .host, gateway := some 0xC0A80201#32,
-    ifaces := [{ mac := 4, ip := 0xC0A80202#32, plen := 24, enabled := true, peer := some (1, 1) }],
-    arp := [{ ip := 0xC0A80201#32, mac := 3, ifc := 0 }, { ip := 0xC0A80102#32, mac := 3, ifc := 0 }] }
-def wSt : St := { nodes := [wA, wR, wB] }
+    ifaces := [{ mac := 1, ip := lvA, plen := 24, enabled := true, peer := some (1, 0) }],
+    arp := [{ ip := 0xC0A80101#32, mac := 21, ifc := 0 }, { ip := lvB, mac := 21, ifc := 0 }] }
+def lvSw : Node :=
+  { kind := .switch,
+    ifaces := [{ mac := 10, ip := 0#32, plen := 0, enabled := true, peer := some (0, 0) },
+               { mac := 11, ip := 0#32, plen := 0, enabled := true, peer := some (2, 1) }],
+    macTable := [(1, 0), (21, 1)] }
+def lvFw : Node :=
+  { kind := .router, fw := some everyList,
+    ifaces := [{ mac := 20, ip := 0x0A000001#32, plen := 30, enabled := true, peer := some (3, 0) },
+               { mac := 21, ip := 0xC0A80101#32, plen := 24, enabled := true, peer := some (1, 1) },
+               { mac := 22, ip := 0x7F000001#32, plen := 8, enabled := false }],
+    routes := { routes := [{ addr := 0xC0A80200#32, mask := 0xFFFFFF00#32, nextHop := 0x0A000002#32, metric := 0 }] },
+    arp := [{ ip := lvA, mac := 1, ifc := 1 }, { ip := 0x0A000002#32, mac := 30, ifc := 0 }, { ip := lvB, mac := 30, ifc := 0 }] }
+def lvR : Node :=
+  { kind := .router, flag := true,
+    ifaces := [{ mac := 30, ip := 0x0A000002#32, plen := 30, enabled := true, peer := some (2, 0) },
+               { mac := 31, ip := 0xC0A80201#32, plen := 24, enabled := true, peer := some (4, 0) }],
+    routes := { routes := [], default := some 0x0A000001#32 },
+    arp := [{ ip := 0x0A000001#32, mac := 20, ifc := 0 }, { ip := lvA, mac := 20, ifc := 0 }, { ip := lvB, mac := 40, ifc := 1 }] }
+def lvHostB : Node :=
+  { kind := .host, gateway := some 0xC0A80201#32, flag := true,
+    ifaces := [{ mac := 40, ip := lvB, plen := 24, enabled := true, peer := some (3, 1) }],
+    arp := [{ ip := 0xC0A80201#32, mac := 31, ifc := 0 }, { ip := lvA, mac := 31, ifc := 0 }] }
+def lvSt : St := { nodes := [lvHostA, lvSw, lvFw, lvR, lvHostB] }
 
-theorem wHopAB : Hop wSt.nodes 0xC0A80102#32 0xC0A80202#32 1 0 2 2 0 3 4 :=
-  ⟨⟨wR, wR.ifaces[0], { ip := 0xC0A80102#32, mac := 1, ifc := 0 }, { ip := 0xC0A80202#32, mac := 4, ifc := 1 }, wR.ifaces[1],
-    wB.ifaces[0], by decide, by decide, by decide, by decide, by decide, by decide, by decide, Or.inr ⟨by decide, by decide⟩,
-    by decide, by decide, by decide, by decide, by decide, by decide, by decide⟩⟩
+/-- forward path A → B: switch (learned), firewall (internal → external outbound, destination remote but cached, static
+route), router (destination on-link and cached). -/
+theorem lvPathAB (pl : Pl) (h1 : transitOk lvFw 1 pl lvB = true) (h2 : transitOk lvR 0 pl lvB = true) :
+    Path lvSt.nodes pl lvA lvB 1 0 1 21 4 0 31 40 11 5 := by
+  refine Path.switch (m := 2) (j := 1) (c := 8) (h := 4) ⟨⟨lvSw, lvSw.ifaces[0], 1, lvSw.ifaces[1], lvFw.ifaces[1], by decide, by decide, by decide, by decide, by decide,
+    by decide, by decide, by decide, by decide, by decide⟩⟩ ?_
+  refine Path.router (m := 3) (j := 0) (c := 4) (h := 2) (os := 20) (od := 30) ⟨⟨lvFw, lvFw.ifaces[1], { ip := lvA, mac := 1, ifc := 1 },
+    { ip := 0x0A000002#32, mac := 30, ifc := 0 }, lvFw.ifaces[0], lvR.ifaces[0], by decide, by decide, h1, by decide, by decide,
+    by decide, by decide, ?_, by decide, by decide, by decide, by decide, by decide, by decide, by decide⟩⟩ (by decide) ?_
+  · exact Or.inr (Or.inr ⟨{ ip := lvB, mac := 30, ifc := 0 }, lvFw.ifaces[0], by decide, by decide, by decide, by decide, by decide,
+      by decide, by decide, by decide⟩)
+  refine Path.router (m := 4) (j := 0) (c := 0) (h := 0) (os := 31) (od := 40) ⟨⟨lvR, lvR.ifaces[0], { ip := lvA, mac := 20, ifc := 0 },
+    { ip := lvB, mac := 40, ifc := 1 }, lvR.ifaces[1], lvHostB.ifaces[0], by decide, by decide, h2, by decide, by decide,
+    by decide, by decide, Or.inr (Or.inl ⟨by decide, by decide⟩), by decide, by decide, by decide, by decide, by decide, by decide,
+    by decide⟩⟩ (by decide) Path.arrive
 
-theorem wHopBA : Hop wSt.nodes 0xC0A80202#32 0xC0A80102#32 1 1 3 0 0 2 1 :=
-  ⟨⟨wR, wR.ifaces[1], { ip := 0xC0A80202#32, mac := 4, ifc := 1 }, { ip := 0xC0A80102#32, mac := 1, ifc := 0 }, wR.ifaces[0],
-    wA.ifaces[0], by decide, by decide, by decide, by decide, by decide, by decide, by decide, Or.inr ⟨by decide, by decide⟩,
-    by decide, by decide, by decide, by decide, by decide, by decide, by decide⟩⟩
+/-- backward path B → A: router (destination remote but cached, DEFAULT route), firewall (external inbound → internal
+inbound, destination on-link), switch. -/
+theorem lvPathBA (pl : Pl) (h1 : transitOk lvR 1 pl lvA = true) (h2 : transitOk lvFw 0 pl lvA = true) :
+    Path lvSt.nodes pl lvB lvA 3 1 40 31 0 0 21 1 11 5 := by
+  refine Path.router (m := 2) (j := 0) (c := 7) (h := 3) (os := 30) (od := 20) ⟨⟨lvR, lvR.ifaces[1], { ip := lvB, mac := 40, ifc := 1 },
+    { ip := 0x0A000001#32, mac := 20, ifc := 0 }, lvR.ifaces[0], lvFw.ifaces[0], by decide, by decide, h1, by decide, by decide,
+    by decide, by decide, ?_, by decide, by decide, by decide, by decide, by decide, by decide, by decide⟩⟩ (by decide) ?_
+  · exact Or.inr (Or.inr ⟨{ ip := lvA, mac := 20, ifc := 0 }, lvR.ifaces[0], by decide, by decide, by decide, by decide, by decide,
+      by decide, by decide, by decide⟩)
+  refine Path.router (m := 1) (j := 1) (c := 3) (h := 1) (os := 21) (od := 1) ⟨⟨lvFw, lvFw.ifaces[0], { ip := lvB, mac := 30, ifc := 0 },
+    { ip := lvA, mac := 1, ifc := 1 }, lvFw.ifaces[1], lvSw.ifaces[1], by decide, by decide, h2, by decide, by decide,
+    by decide, by decide, Or.inr (Or.inl ⟨by decide, by decide⟩), by decide, by decide, by decide, by decide, by decide, by decide,
+    by decide⟩⟩ (by decide) ?_
+  exact Path.switch (m := 0) (j := 0) (c := 0) (h := 0) ⟨⟨lvSw, lvSw.ifaces[1], 0, lvSw.ifaces[0], lvHostA.ifaces[0], by decide, by decide, by decide, by decide, by decide,
+    by decide, by decide, by decide, by decide, by decide⟩⟩ Path.arrive
 
-/-- the hypotheses of the liveness theorem hold for a concrete routed network, and the theorem gives the result. -/
-example : (ping (0 + 4 * (1 + 1) + 8) wSt 0 0xC0A80202#32 1).2 = true :=
-  C08_permitted_exchange_succeeds_warm wSt 0 2 wA wB wA.ifaces[0] wB.ifaces[0]
-    { ip := 0xC0A80101#32, mac := 2, ifc := 0 } { ip := 0xC0A80201#32, mac := 3, ifc := 0 } 1 0 1 1 2 3 1 1 0
-    ⟨by decide, by decide, by decide, by decide, by decide, by decide, ⟨0xC0A80101#32, by decide, by decide⟩, by decide, by decide,
-      ⟨wR.ifaces[0], by decide, by decide⟩, ⟨{ ip := 0xC0A80202#32, mac := 2, ifc := 0 }, by decide⟩, by decide, by decide⟩
-    ⟨by decide, by decide, by decide, by decide, by decide, by decide, ⟨0xC0A80201#32, by decide, by decide⟩, by decide, by decide,
-      ⟨wR.ifaces[1], by decide, by decide⟩, ⟨{ ip := 0xC0A80102#32, mac := 3, ifc := 0 }, by decide⟩, by decide, by decide⟩
-    (by decide) (Chain.last wHopAB) (Chain.last wHopBA) (by decide) (by decide)
+theorem lvWarmA : WarmHost lvSt.nodes 0 lvHostA lvHostA.ifaces[0] lvB { ip := 0xC0A80101#32, mac := 21, ifc := 0 } 1 0 :=
+  ⟨by decide, by decide, by decide, by decide, by decide,
+    Or.inr ⟨by decide, 0xC0A80101#32, by decide, by decide, by decide⟩, by decide, by decide,
+    ⟨lvSw.ifaces[0], by decide, by decide⟩, ⟨{ ip := lvB, mac := 21, ifc := 0 }, by decide⟩, by decide, by decide⟩
+
+theorem lvWarmB : WarmHost lvSt.nodes 4 lvHostB lvHostB.ifaces[0] lvA { ip := 0xC0A80201#32, mac := 31, ifc := 0 } 3 1 :=
+  ⟨by decide, by decide, by decide, by decide, by decide,
+    Or.inr ⟨by decide, 0xC0A80201#32, by decide, by decide, by decide⟩, by decide, by decide,
+    ⟨lvR.ifaces[1], by decide, by decide⟩, ⟨{ ip := lvA, mac := 31, ifc := 0 }, by decide⟩, by decide, by decide⟩
+
+/-- the hypotheses of the ICMP liveness theorem hold for this network, and the theorem gives the result … -/
+example : (ping (0 + 11 + 11 + 8) lvSt 0 lvB 1).2 = true :=
+  C08_permitted_exchange_succeeds_warm lvSt 0 4 lvHostA lvHostB lvHostA.ifaces[0] lvHostB.ifaces[0]
+    { ip := 0xC0A80101#32, mac := 21, ifc := 0 } { ip := 0xC0A80201#32, mac := 31, ifc := 0 } 1 0 3 1 21 31 11 5 11 5 0
+    lvWarmA lvWarmB (by decide) (lvPathAB _ (by decide) (by decide)) (lvPathBA _ (by decide) (by decide)) (by decide) (by decide)
+
+/-- … and so do those of the service theorem (the router carries the permit rule, every firewall list permits). -/
+example : (requestService (0 + 11 + 11 + 8) lvSt 0 lvB).2 = true :=
+  C08_permitted_service_exchange_succeeds_warm lvSt 0 4 lvHostA lvHostB lvHostA.ifaces[0] lvHostB.ifaces[0]
+    { ip := 0xC0A80101#32, mac := 21, ifc := 0 } { ip := 0xC0A80201#32, mac := 31, ifc := 0 } 1 0 3 1 21 31 11 5 11 5 0
+    lvWarmA lvWarmB (by decide) (by decide) (by decide) (lvPathAB _ (by decide) (by decide)) (lvPathBA _ (by decide) (by decide))
+    (by decide) (by decide)
+
+/-- "every device on the path permits" is a real precondition: without the router's permit rule `transitOk` fails … -/
+example : transitOk { lvR with flag := false } 0 .dataReq lvB = false := by decide
+/-- … and so it does when the firewall's external-outbound list does not permit ICMP. -/
+example : transitOk { lvFw with fw := some (everyList.filter (· != (1, 1))) } 1 (.echoReq 0) lvB = false := by decide
+
+/-! ### the COLD path, by evaluation only (not a theorem): the same network with empty caches and tables — the ARP
+exchanges nested inside the first ping (A ↔ firewall through the switch's flood, firewall ↔ router, router ↔ B) complete and the
+ping, then the service exchange, succeed; the general cold case is validated on the implementation by R-net. -/
+def lvCold : St := { nodes := lvSt.nodes.map (fun nd => { nd with arp := [], macTable := [] }) }
+example : (ping 200 lvCold 0 lvB 1).2 = true := by decide +kernel
+example : (requestService 200 lvCold 0 lvB).2 = true := by decide +kernel
+example : (ping 200 lvCold 0 lvB 1).1.oof = false := by decide +kernel
 
 end Primaite.Forward
